@@ -223,6 +223,20 @@ func Submit(nd *chainx.Node, blocks []types.Block) (res string) {
 	return ErrKind(nd.CM.AddBlocks(blocks))
 }
 
+// SubmitFF is Submit on a probed node whose store fails the first Flush the call reaches (when arm
+// is set); flushFailed reports whether a flush did fail (the model's op is then addff, not add).
+func SubmitFF(nd *chainx.Node, blocks []types.Block, arm bool) (res string, flushFailed bool) {
+	arm = arm && nd.Probe != nil
+	if arm {
+		nd.Probe.FailNextFlush()
+	}
+	res = Submit(nd, blocks)
+	if arm {
+		flushFailed = nd.Probe.DisarmFlush()
+	}
+	return
+}
+
 // AuditProbe reports what the atomicity probe of a probed node saw (chainx.ProbeStore).
 func AuditProbe(c *vh.Case, nd *chainx.Node) {
 	if nd.Probe == nil {
@@ -485,14 +499,7 @@ func RunTreeModes(r *vh.Run, name string, t *chainx.Tree, sched [][]int, modes [
 			fmt.Fprintf(&sb, "addv2 %d", nStates)
 			c.Tags = append(c.Tags, "addv2")
 		} else {
-			arm := nd.Probe != nil && !it.noFail && bi%3 == 1
-			if arm {
-				nd.Probe.FailNextFlush()
-			}
-			res = Submit(nd, t.Get(batch))
-			if arm {
-				flushFailed = nd.Probe.DisarmFlush()
-			}
+			res, flushFailed = SubmitFF(nd, t.Get(batch), !it.noFail && bi%3 == 1)
 			if flushFailed {
 				sb.WriteString("addff")
 				c.Tags = append(c.Tags, "flush-failed:"+res)
